@@ -476,10 +476,10 @@ pub fn run(args: &Args) -> ! {
     ctx.assume("the shipped weather file climate/src/zonaD3.met is the source of the D3 tables");
     ctx.replay_regressions(replay_one);
     run_calendar(&ctx);
-    let grid = sun_grid(ctx.tier().pick(2.0, 0.5));
+    let grid = sun_grid(ctx.tier().pick(1.0, 0.5));
     ctx.run_enum("sun_grid", &grid, true, check_sun);
-    ctx.run_prop("sun_random", ctx.tier().pick(1_000_000, 20_000_000), sun_random, check_sun);
-    ctx.run_prop("radiation_random", ctx.tier().pick(1_000_000, 20_000_000), rad_random, check_rad);
+    ctx.run_prop("sun_random", ctx.tier().pick(8_000_000, 40_000_000), sun_random, check_sun);
+    ctx.run_prop("radiation_random", ctx.tier().pick(8_000_000, 40_000_000), rad_random, check_rad);
     run_tables(&ctx);
     run_met(&ctx);
     for c in ["calendar/day-31", "sun_grid/sun-up", "sun_grid/sun-down", "radiation_random/alt>=6", "met_hours/alt>=6"] {
